@@ -7,6 +7,13 @@ dst = f"/verif/seeded/{pid}-{k}"
 os.makedirs(dst, exist_ok=True)
 for f in ("patch.diff", "demo_test.go"):
     shutil.copy(os.path.join(src, f), os.path.join(dst, f))
+# the diff as it applied to the current HEAD (3-way for seeds written before a fix commit)
+applied = f"/tmp/sv-{pid}-{k}.applied.diff"
+if os.path.exists(applied) and os.path.getsize(applied) > 0:
+    a = open(applied).read()
+    if a != open(os.path.join(src, "patch.diff")).read():
+        shutil.copy(os.path.join(src, "patch.diff"), os.path.join(dst, "patch.orig.diff"))
+        open(os.path.join(dst, "patch.diff"), "w").write(a)
 meta = json.load(open(os.path.join(src, "meta.json")))
 m = dict(re.findall(r"(\w+)=(\d+)", result))
 viol = [l.strip() for l in open(f"/tmp/sv-{pid}-{k}.check.log") if l.startswith(("VIOLATION", "INCONCLUSIVE", "OK", "KNOWN"))][:6]
